@@ -24,6 +24,7 @@ type Case struct {
 	Edits   []c02.EditRef `json:"edits"`
 	Mode    int           `json:"mode"`
 	Perm    int64         `json:"perm"` // permutation seed for the permutation relation (0 = none)
+	Short   int           `json:"short,omitempty"` // MySQL: column character sets written the short way on the desired side (c02.Shorthand): resolved through lazily loaded driver tables
 }
 
 func planner(d string) migrate.PlanApplier {
@@ -68,6 +69,9 @@ func Render(c Case, perm int64) (map[string]string, error) {
 			return nil, fmt.Errorf("harness: %v", err)
 		}
 	}
+	if c.Dialect == "mysql" {
+		c02.Shorthand(&edited, c.Short)
+	}
 	from, err := gm.Build(c.Dialect, base)
 	if err != nil {
 		return nil, fmt.Errorf("harness: %v", err)
@@ -80,8 +84,7 @@ func Render(c Case, perm int64) (map[string]string, error) {
 		permuteTop(from, perm)
 		permuteTop(to, perm+1)
 	}
-	empty := schema.New(base.Name)
-	schema.NewRealm(empty)
+	empty := gm.Empty(c.Dialect, base)
 	differ := gm.Differ(c.Dialect)
 	dir := &migrate.MemDir{}
 	for i, pair := range [][2]*schema.Schema{{empty, to}, {from, to}, {from, empty}} {
